@@ -1368,7 +1368,8 @@ func (c *pfHTTPCase) run() (op, obs string, tags []string) {
 	case "sse":
 		handler = NewSSEHandler(func(*http.Request) *Server { return srv }, &SSEOptions{DisableLocalhostProtection: c.disabled})
 	default:
-		opts := &StreamableHTTPOptions{Stateless: c.kind == "sl", DisableLocalhostProtection: c.disabled, MaxRequestBodyBytes: c.limit, JSONResponse: c.jsonResp}
+		// the body limit is installed after the set-up requests (which must not be subject to the limit under test)
+		opts := &StreamableHTTPOptions{Stateless: c.kind == "sl", DisableLocalhostProtection: c.disabled, JSONResponse: c.jsonResp}
 		if c.originCfg {
 			cop = http.NewCrossOriginProtection()
 			opts.CrossOriginProtection = cop
@@ -1456,6 +1457,13 @@ func (c *pfHTTPCase) run() (op, obs string, tags []string) {
 		serve(p, httptest.NewRecorder())
 	}
 	mw0, h0 := cnt.mw.Load(), cnt.h.Load()
+	if sh != nil {
+		// what NewStreamableHTTPHandler does with the option
+		sh.opts.MaxRequestBodyBytes = c.limit
+		if sh.opts.MaxRequestBodyBytes == 0 {
+			sh.opts.MaxRequestBodyBytes = DefaultMaxRequestBodyBytes
+		}
+	}
 
 	// the request under test
 	url := "http://placeholder/"
@@ -1483,6 +1491,9 @@ func (c *pfHTTPCase) run() (op, obs string, tags []string) {
 	}
 	if c.kind != "sse" && sessionID != "" {
 		req.Header[http.CanonicalHeaderKey(sessionIDHeader)] = []string{sessionID}
+	}
+	if c.method != "POST" {
+		c.lastEvent = false // resumption (GET + Last-Event-ID) belongs to C08
 	}
 	if c.lastEvent {
 		req.Header[http.CanonicalHeaderKey(lastEventIDHeader)] = []string{"abc_1"}
